@@ -941,7 +941,16 @@ impl Gen {
             let fail_cpi = if k.cpi_fail_pct > 0 && self.rng.chance(k.cpi_fail_pct, 100) {
                 self.stats.hit("cpi_failure_planned");
                 let ii = self.rng.idx(tx.ixs.len().max(1));
-                Some((ii, self.rng.below(4) as usize))
+                let kth = self.rng.below(4) as usize;
+                // twin runs (fixed vs dynamic arrays): the two array initialisers make different numbers of inner calls
+                // (e.g. on a pre-funded address), so "the k-th inner call fails" is not the same fault in both worlds
+                let twin = FORCE_ARRAY_KIND.with(|c| c.get()).is_some();
+                let is_array_init = tx.ixs.get(ii).and_then(crate::wpix::decode).map(|c| matches!(c.name(), "initialize_tick_array" | "initialize_dynamic_tick_array")).unwrap_or(false);
+                if twin && is_array_init {
+                    None
+                } else {
+                    Some((ii, kth))
+                }
             } else {
                 None
             };
